@@ -1022,6 +1022,24 @@ func c04TypeListPadded(p *Prog, r *Report) {
 						}
 						addLen(initList, 1)
 					}
+					// and the list that is padded is the declared types without the last one — types[:len(types)-1] — not a shorter prefix
+					if sl, isSl := initList.(*ssa.Slice); isSl && okStart {
+						pre := map[string]int64{}
+						var pc int64
+						if sl.High != nil {
+							linForm(k, sl.High, 1, pre, &pc, 0)
+						}
+						wantKey := "len(" + k.Key(sl.X) + ")"
+						exact := sl.Low == nil && sl.High != nil && pc == -1 && pre[wantKey] == 1
+						for key, c := range pre {
+							if c != 0 && key != wantKey {
+								exact = false
+							}
+						}
+						if !exact {
+							okStart = false
+						}
+					}
 					if okStart && initList != nil && dc == 0 {
 						nArgs := 0
 						okForm := true
